@@ -43,7 +43,7 @@ def run(ctx):
                        env=ctx["goenv"], stdout=subprocess.PIPE, stderr=subprocess.STDOUT, text=True, timeout=1200)
     if p.returncode != 0:
         raise RuntimeError("go build -race of the correspondence harness failed: " + p.stdout[-2000:])
-    budget = 5.0 if ctx["tier"] == "quick" else 60.0
+    budget = 3.0 if ctx["tier"] == "quick" else 60.0
     if os.environ.get("VERIF_C17_RACE_BUDGET"):
         budget = float(os.environ["VERIF_C17_RACE_BUDGET"])
     env = dict(os.environ, GORACE="halt_on_error=1 exitcode=66 atexit_sleep_ms=0", VERIF_C17_NOISOLATE="1")
